@@ -152,6 +152,27 @@ def _event_log(ctx, args, kwargs):
     return ctx.event_log
 
 
+def _any_bool(ctx, args, kwargs):
+    import z3
+    from .values import SBool
+    name = "choice.%d.%s" % (len(ctx.choice_names), args[0] if args else "b")
+    t = z3.Bool(name)
+    ctx.inputs[name] = t
+    ctx.choice_names.append(name)
+    return SBool(t)
+
+
+def _any_int(ctx, args, kwargs):
+    import z3
+    from .values import SInt, int_term
+    name = "choice.%d.%s" % (len(ctx.choice_names), args[0])
+    t = z3.Int(name)
+    ctx.inputs[name] = t
+    ctx.choice_names.append(name)
+    ctx.assume_raw(z3.And(t >= int_term(args[1]), t <= int_term(args[2])))
+    return SInt(t)
+
+
 def _ghost_set(ctx, args, kwargs):
     ctx.ghost[args[0]] = args[1]
     return True
@@ -218,6 +239,8 @@ ModelsMixin.FUNCTION_MODELS.update({
     "pyvc.spec.ghost_get": _ghost_get,
     "pyvc.spec.ghost_set": _ghost_set,
     "pyvc.spec.event_log": _event_log,
+    "pyvc.spec.any_bool": _any_bool,
+    "pyvc.spec.any_int": _any_int,
     "pyvc.spec.seq_uncons": _seq_uncons,
     "pyvc.spec.seq_snoc": _seq_snoc,
     "pyvc.spec.seq_empty": _seq_empty,
